@@ -310,6 +310,9 @@ func init() {
 			if !c.Mine(idx) {
 				continue
 			}
+			if sr.Bail() {
+				break
+			}
 			rg := eng.NewRng(c.CaseSeed(idx))
 			p := c09Shape(rg, c.Thorough())
 			c.Progress(idx, c09Replay{Program: p})
